@@ -33,6 +33,8 @@ META = {
             "Every evaluated curve is compared with an independent model and with the inverse, slope, continuity, Miner, quantile and transform-group relations; broadcast evaluation is compared with per-element scalar evaluation.", "3 C08"),
     "C09": ("exploration", "runtime monitoring: reference-model oracles (literal damage accumulation loop, closed-form curve algebra, guideline P_RAM and gamma_L formulas, scipy normal quantile) on the real accessors",
             "Curves, damage parameter, accumulated lifetime, safety index and load safety factors of every generated case are compared with independent closed forms / a literal accumulation loop.", "3 C09"),
+    "C10": ("exploration", "runtime monitoring: relation monitors between complete assessment executions (batch vs single, refined vs original sequence, harder vs base parameters, reported quantiles)",
+            "Relations between whole perform_fkm_nonlinear_assessment runs on generated sequences, parameter sets and batch compositions; class-edge ambiguities are tagged and not judged.", "3 C10"),
     "C03": ("exploration", "runtime monitoring: metamorphic relation monitors between executions (refinement, negation, "
             "affine map, NaN insertion, Series index types), sanitizer replays",
             "Relations between pairs of real executions, each with its own counter; ties that rounding may flip are "
